@@ -19,10 +19,12 @@ PROP = {
         'multi-key command whose keys hash to different slots is refused when active redirection is off") is false for '
         'the code: proved negation C09_multikey_full_false / C09_unguarded_two_key (RENAME & co, F09b known)',
         'blocking commands: only the first pass of the polling loop is modelled (backends that answer non-empty)',
-        'UMFORWARD as an incoming command, CLUSTER NODES/SLOTS, INFO/AUTH/UMCTL/CONFIG/COMMAND are not modelled here',
+        'CLUSTER NODES/SLOTS, INFO/AUTH/UMCTL/CONFIG/COMMAND are not modelled here; nested UMFORWARD wrappers are modelled '
+        'but not generated',
     ],
     'trusted': [
-        'tools/extract_cmd.py (command-type, key-position and handler-dispatch tables from command.rs / executor.rs)',
+        'tools/extract_cmd.py (command-type, key-position and handler-dispatch tables from command.rs / executor.rs; pins that '
+        'wrap_cmd / extract_inner_cmd rebuild the cached CommandInfo)',
         'harness fake backends (reply is a function of node address and command name; mirrored in UmDriver/Route9.lean)',
     ],
 }
@@ -35,10 +37,13 @@ CHECK = {
             '(array-filling code transliterated), routing of a key on a proxy with an installed map: Exec n only on a local '
             'node listing the slot (exactly the lister when local ranges are disjoint), else MOVED <slot> to a peer listing '
             'it (forward / ERR_TOO_MANY_REDIRECTIONS under active redirection), else "slot not covered"; ERR_CLUSTER_NOT_FOUND '
-            'iff nothing installed; CLUSTER KEYSLOT = slotOf; guarded multi-key commands with keys in different slots dispatch '
+            'iff nothing installed; a command received as UMFORWARD <times> <cmd> is handled as <cmd> with the budget <times> '
+            '(C09_umforward*: routed by its own key, executed locally iff the plain command would be, the counter text never '
+            'reaches the routing); CLUSTER KEYSLOT = slotOf; guarded multi-key commands with keys in different slots dispatch '
             'nothing and reply an error (EVAL/EVALSHA in both modes), accepted ones send every sub-command to one target. Checked every '
             'run against the real code on >= 10^5 keys (all brace placements, binary, one per slot), raw SlotMapData layouts '
-            'and >= 150 proxy configurations x hand-built layouts x 13 command shapes. F09a (EVALSHA bypassed the EVAL guard) was found by this check and is fixed in /repo 7ad1e99 (regression theorem '
+            'and >= 150 proxy configurations x hand-built layouts x 13 command shapes, a quarter of them also as a peer proxy delivers them (UMFORWARD with '
+            'counters 0/1/2/usize::MAX-1/malformed and counters whose text hashes to the other side of the layout than the key). F09a (EVALSHA bypassed the EVAL guard) was found by this check and is fixed in /repo 7ad1e99 (regression theorem '
             'C09_evalsha_refused). KNOWN-FINDING F09b: first-key-routed two-key commands (RENAME, RENAMENX, SMOVE, RPOPLPUSH; '
             'BRPOPLPUSH under active redirection) are executed on the owner of the first key although the other key hashes '
             'elsewhere (documented caller obligation in docs/command_table.md).',
